@@ -548,7 +548,13 @@ def run_check(prop, tier, queries, meta):
             else:
                 machinery.append((r, "known-finding twin undecided: %s" % r.status))
             continue
-        if r.status == "FAIL":
+        if r.status == "FAIL" and r.failing and all(".unwind." in (f.get("property") or "") for f in r.failing) \
+                and not (r.replay or {}).get("reproduced"):
+            # only unwinding assertions failed and the native run of the counterexample terminates cleanly: the
+            # loop bound of this query is too small for its inputs -- a defect of the check, not of the code
+            machinery.append((r, "loop bound too small (only unwinding assertions failed, native run terminates): %s" %
+                              ", ".join(sorted({f["location"].split("/")[-1] for f in r.failing}))[:300]))
+        elif r.status == "FAIL":
             violations.append(r)
         elif r.status in ("TIMEOUT", "OOM") and q.stretch:
             stretch_undecided.append(r)
